@@ -53,7 +53,26 @@ class _Obs(Observer):
 
 
 def _case_labels(node):
-    """Characters of the case labels governing node (nearest enclosing case group)."""
+    """Characters of the case labels governing node (nearest enclosing case group).  A node inside a lambda is governed
+    by the labels of the lambda's call sites."""
+    lam = next((a for a in ancestors(node) if a.get('kind') == 'LambdaExpr'), None)
+    if lam is not None:
+        var = next((a for a in ancestors(lam) if a.get('kind') == 'VarDecl'), None)
+        fn_ = next((a for a in ancestors(lam) if a.get('kind') in ('FunctionDecl', 'CXXMethodDecl')), None)
+        out = []
+        if var is not None and fn_ is not None:
+            for y in walk(fn_):
+                if y.get('kind') == 'CXXOperatorCallExpr' and call_args(y) and \
+                        (peel(call_args(y)[0]).get('referencedDecl') or {}).get('id') == var.get('id') and \
+                        not any(a is lam for a in ancestors(y)):
+                    for l_ in _case_labels(y):
+                        if l_ not in out:
+                            out.append(l_)
+        return out
+    return _case_labels_direct(node)
+
+
+def _case_labels_direct(node):
     labs = []
     child = node
     for a in ancestors(node):
